@@ -316,9 +316,10 @@ Definition check_synchronous_on : bool :=
 (* ------------------------------------------------------------------ C02: a height is recorded once *)
 (* The mark of a synced height (InsertSynced -> MarkHeightSynced -> markHeightSyncedVersion) is a plain INSERT:
    PRIMARY KEY(height) then makes a second application of the same height fail and roll back.  (INSERT OR REPLACE /
-   OR IGNORE would let a sync loop with a stale in-memory height commit a height again.) *)
+   OR IGNORE would let a sync loop with a stale in-memory height commit a height again.)  The scanner prints every
+   text the statement variable can hold, joined by " || ": a statement chosen by a condition is not a plain INSERT. *)
 Definition height_mark_sites : list (string * string * string * string * string) :=
   filter (fun r => match r with (f, _, _, _, _) => f =? "pegnet.Pegnet.markHeightSyncedVersion" end) sql_sites.
 Definition check_height_mark_plain_insert : bool :=
   negb (match height_mark_sites with [] => true | _ => false end) &&
-  forallb (fun r => match r with (_, _, _, rw, q) => (rw =? "W") && String.prefix "INSERT INTO ""pn_sync_version""" q end) height_mark_sites.
+  forallb (fun r => match r with (_, _, _, rw, q) => (rw =? "W") && (q =? "INSERT INTO ""pn_sync_version"" (""height"",") end) height_mark_sites.
